@@ -15,7 +15,10 @@ RULE = ('All 1,331,463 non-sysex messages (every in-range attribute combination 
         'Oracle: bytes()==independent reference encoder, structural well-formedness, bin/hex agreement, '
         'from_bytes/from_hex over every input container equals the original in class, attributes, value types and time, '
         'and the independent reference decoder agrees. Non-trivial = at least one attribute differs from its default; '
-        'distinct by (type, attributes) - by construction for the enumeration, by hash for drawn cases.')
+        'distinct by (type, attributes) - by construction for the enumeration, by hash for drawn cases.'
+        ' Later additions: hex(sep)/from_hex(sep) for arbitrary separators together with time=; encodings handed'
+        ' out are fresh objects; two threads converting different messages of one type under the deterministic'
+        ' scheduler (every placement of one preemption in the codec modules).')
 ASSUMPTIONS = ['reference codec lib/refmidi.py written from the MIDI 1.0 tables is correct',
                'times are compared with == and type identity; NaN/inf times are not generated']
 
